@@ -234,6 +234,14 @@ def targeted_reuse(rnd):
     binders = [rnd.choice(pool + [f"w{i}"]) for i in range(depth)]
     # innermost body uses the innermost binder, the substituted projections and (when not shadowed) outer binders
     body = f"{binders[-1]}.pt + {t1}" if T not in binders else f"{binders[-1]}.pt"
+    if rnd.random() < 0.3 and T not in binders:
+        # the innermost binder is the SECOND parameter of a fold's lambda
+        acc = rnd.choice(["acc", "a_"] + [p_ for p_ in pool if p_ not in binders and p_ != T][:1])
+        if acc != binders[-1]:
+            body = f"Aggregate({t0}.trks, 0, lambda {acc}, {binders[-1]}: {acc} + {binders[-1]}.pt + {t1})"
+            if depth == 1:
+                inner = f"Select(Select({E}.jets, lambda {J}: {pack}), lambda {T}: {body})"
+                return f"Select(EventDataset(), lambda {E}: {inner})"
     for lvl in range(depth - 1, -1, -1):
         src = f"{t0}.trks" if T not in binders[:lvl] else f"{binders[lvl - 1]}.trks" if lvl > 0 else f"{t0}.trks"
         if lvl > 0 and rnd.random() < 0.5 and binders[lvl - 1] not in binders[lvl:]:
